@@ -4,6 +4,7 @@ import (
 	"bytes"
 	"flag"
 	"fmt"
+	"sort"
 	"strings"
 	"testing"
 
@@ -184,6 +185,17 @@ func CheckTamper(c TamperCase) (hx.Vs, *tamperInfo) {
 					what = fmt.Sprintf("a read of %s returns a key it never held (successful reads: %v)", o.K, got.OK)
 				}
 			}
+			// detected when it is read: a reader either fails or is not affected at all (it does not read this
+			// file); a reader that succeeds with fewer keys than before has skipped the modified file silently
+			if sig == "" {
+				for _, name := range sortedKeys(got.By) {
+					if before, ok := was.By[name]; ok && !sameValues(before, got.By[name]) {
+						sig = "v1-key-file-modification-silently-skipped:" + o.K.Kind
+						what = fmt.Sprintf("%s succeeds for %s and returns %d keys instead of %d", name, o.K, len(got.By[name]), len(before))
+						break
+					}
+				}
+			}
 		}
 		if len(got.OK) == 0 {
 			info.classes["outcome:all-reads-fail"]++
@@ -228,4 +240,25 @@ func TestTamper(t *testing.T) {
 		R.Class(name, "points") // bumped once per case; the number of modifications is in the per-object classes
 		R.Report(rt, name, c, vs)
 	})
+}
+
+func sortedKeys(m map[string][][]byte) []string {
+	out := make([]string, 0, len(m))
+	for k := range m {
+		out = append(out, k)
+	}
+	sort.Strings(out)
+	return out
+}
+
+func sameValues(a, b [][]byte) bool {
+	if len(a) != len(b) {
+		return false
+	}
+	for i := range a {
+		if !bytes.Equal(a[i], b[i]) {
+			return false
+		}
+	}
+	return true
 }
